@@ -37,6 +37,14 @@ where
         .map_err(Box::from)
         .context(BuildChunkSnafu)?;
 
+    if data.len() > u32::MAX as usize {
+        // the content does not fit in the 32-bit length field
+        return Err(std::io::Error::new(
+            std::io::ErrorKind::InvalidInput,
+            "content too long for a 32-bit length field",
+        ))
+        .context(WriteLengthSnafu);
+    }
     let length = data.len() as u32;
     writer
         .write_u32::<BigEndian>(length)
@@ -56,6 +64,15 @@ where
         .map_err(Box::from)
         .context(BuildChunkSnafu)?;
 
+    if data.len() > u16::MAX as usize {
+        // the content does not fit in the 16-bit length field:
+        // fail instead of emitting a corrupt item
+        return Err(std::io::Error::new(
+            std::io::ErrorKind::InvalidInput,
+            "content too long for a 16-bit length field",
+        ))
+        .context(WriteLengthSnafu);
+    }
     let length = data.len() as u16;
     writer
         .write_u16::<BigEndian>(length)
